@@ -36,7 +36,7 @@ def run(tier):
                 res.violate(f.rule, f.where, f.construct, f.msg, file=f.file, line=f.line)
     res.floor("C14.R1", 7 + 8)
     res.floor("C14.R2", 8)
-    res.floor("C14.R3", 14)
+    res.floor("C14.R3", 13)
     res.floor("C14.R4", 2)
     res.explanation = ("constant table of the 7 registered claim keys over all 17 constructors; every Serialize impl of a claim writes exactly one map entry (key field, value field); abstract interpretation of GenericBuilder::set_claim over "
                        "{empty key} x JSON variant x {one-entry map of that key}: stored under the claim's key with HashMap::insert, value = the entry's value for a one-entry map of that key, otherwise the serialised value itself; "
@@ -196,36 +196,65 @@ def set_claim(res, facts):
 
 
 def payload(res, facts):
-    b = _fpai.find_body(facts, GB + r"build_payload_from_claims::\{closure#0\}$")
+    """payload = to_string(wrap_claims(map)) where map holds, for every stored claim (k, v), exactly (k, to_value(v)) - Null when
+    the value cannot be serialised - decided by abstract interpretation (iterator-chain or loop style alike)."""
+    b = _fpai.find_body(facts, GB + r"build_payload_from_claims$")
     if b is None:
-        res.violate("C14.R3", "GenericBuilder::build_payload_from_claims", "per-entry closure missing", "the (key, value) mapping closure of build_payload_from_claims was not found (fail closed)")
+        res.violate("C14.R3", "GenericBuilder::build_payload_from_claims", "anchor missing", "not found")
         return
     v = M.view(facts, b)
-    N = M.Normalizer(facts, keep=[])
-    rt = N.norm(v.return_term())
-    k = M.mk_field(rt, "0")
-    val = M.mk_field(rt, "1")
-    okk = k == T("field", "0", (T("param", 2),))
-    okv = val.op == "call" and bool(re.search(r"Result::<.*>::unwrap_or$", val.name)) and val.args[0].op == "call" and bool(re.search(r"^serde_json::value::to_value", val.args[0].meta.get("tdef", ""))) and \
-        val.args[0].args[0] == T("field", "1", (T("param", 2),))
-    res.oblige(okk and okv)
-    if okk and okv:
-        res.inst("C14.R3", "payload entry = (key, to_value(stored value)) - no transformation at build time")
-    else:
-        res.violate("C14.R3", b["id"], "payload entry transformed at build time", "every stored claim must enter the payload as (its key, to_value(its value)); found (%s, %s)" % (M.show(k)[:60], M.show(val)[:160]), file=v.file(), line=b["line"])
-    pb = _fpai.find_body(facts, GB + r"build_payload_from_claims$")
-    if pb is not None:
-        pv = M.view(facts, pb)
-        names = [M.callee_def(t["callee"]) for _, t in pv.calls]
-        chain = [n for n in names if re.search(r"wrap_claims$|^serde_json::ser::to_string$|Iterator::map$|Iterator::collect$|HashMap::<K, V, S.*>::iter$", n)]
-        ok = any(re.search(r"wrap_claims$", n) for n in chain) and any(re.search(r"to_string$", n) for n in chain) and any(re.search(r"::iter$", n) for n in chain)
-        extra = [n for n in names if n.startswith("crate::") and not re.search(r"wrap_claims$", n)]
-        ok = ok and not extra
+    I, me, outs = _fpai.run_on_self(facts, b, stubs=[r"generic_builder::wrap_claims$"])
+    n_ok = 0
+    for o in outs:
+        r = I.resolve(o.state, o.value) if o.kind == "return" else None
+        if not (isinstance(r, A.Struct) and r.variant == "Ok"):
+            continue
+        n_ok += 1
+        cond = " & ".join(o.state.cond)
+        text = MD.deref(I, o.state, r.fields["0"])
+        src = text.attrs.get("json_text_of") if isinstance(text, A.Seq) else None
+        wrapped = any(e[0].endswith("wrap_claims") for e in o.state.events)
+        mappings = []
+        problems = []
+        if o.state.unmodelled or _fpai.undecided(o):
+            problems.append("undecided path (unmodelled %s, notes %s)" % (o.state.unmodelled, o.state.notes[:1]))
+        for e in o.state.events:
+            if e[0] == "collect_map":
+                if e[1] != "self.claims":
+                    problems.append("the payload is collected from %s, not from self.claims" % e[1])
+                for kd, vd, conds, unm in e[2]:
+                    mappings.append((kd, vd, conds))
+                    if unm:
+                        problems.append("unmodelled call in the per-entry mapping: %s" % (unm,))
+        # loop style: inserts of (key_i, value) into the map handed to wrap_claims
+        items = sorted(set(m.group(0) for c in o.state.cond for m in [re.search(r"iterator yields an item", c)] if m))
+        inserts = [e for e in o.state.events if e[0].endswith("::insert") and isinstance(e[1], list) and len(e[1]) >= 3 and not str(e[1][0]).endswith(".claims")]
+        for e in inserts:
+            kd = e[1][1][1] if isinstance(e[1][1], tuple) else str(e[1][1])
+            vd = e[1][2][1] if isinstance(e[1][2], tuple) else str(e[1][2])
+            mappings.append((kd, vd, ()))
+        if not mappings and "iterator ends" in cond and not any("iterator yields" in c for c in o.state.cond):
+            # zero-entry path of the loop style: nothing to map
+            pass
+        for kd, vd, conds in mappings:
+            key_ok = kd in ("entry.key",) or bool(re.match(r"key\d+@\d+$", kd))
+            val_ok = bool(re.search(r"^to_value$|^\$?to_value|Value::Null", vd)) or vd in ("to_value",)
+            if not key_ok:
+                problems.append("entry stored under %s instead of the claim's key" % kd)
+            if not val_ok:
+                problems.append("entry value is %s instead of to_value(stored value)" % vd[:80])
+        if not wrapped:
+            problems.append("wrap_claims is not applied")
+        if src is None:
+            problems.append("the result is not the JSON text of the claim map")
+        ok = not problems
         res.oblige(ok)
         if ok:
-            res.inst("C14.R3", "payload = to_string(wrap_claims(collect(claims.iter().map(entry))))")
+            res.inst("C14.R3", "payload [%s] = to_string(wrap_claims({k: to_value(v) for (k, v) in self.claims}))  (%d entry mappings)" % (cond[:60], len(mappings)))
         else:
-            res.violate("C14.R3", pb["id"], "payload pipeline", "the payload must be to_string(wrap_claims(all stored claims)); calls: %s" % [M.short(n)[:50] for n in names], file=pv.file(), line=pb["line"])
+            res.violate("C14.R3", b["id"], "payload entry transformed at build time", "; ".join(sorted(set(problems)))[:400], file=v.file(), line=b["line"])
+    if n_ok == 0:
+        res.violate("C14.R3", b["id"], "no successful outcome", "abstract interpretation found no path producing a payload (fail closed)", file=v.file(), line=b["line"])
 
 
 def writers(res, facts):
